@@ -22,7 +22,7 @@ EXPLANATION = ("Real Scheduler.cycle/schedule/fast_schedule, BaseTask.execute, T
 FUNCTIONS = ["pox.lib.recoco.recoco.Again.execute/AgainTask.run_again/task_function", "pox.lib.recoco.recoco.Scheduler.cycle/schedule/fast_schedule/quit", "BaseTask.execute/start", "Task.run", "Sleep/Select/DummyOp/Exit.execute",
              "SelectHub._select/idle/break_idle/registerSelect/registerTimer/_return/_cycle (inline)", "Timer.run/cancel/start"]
 BOUNDS = {}
-OUTSIDE = ["the threaded select hub, CallBlocking, Synchronizer (real threads)", "EpollSelect", "more than 2 tasks x 3 yields", "float clocks"]
+OUTSIDE = ["CallBlocking (worker threads); the threaded hub and Synchronizer are C07 O4's subject", "EpollSelect: exceptional conditions (EPOLLERR/HUP are reported for every registered fd by design), more than 2 fds / 3 (4) calls", "more than 2 tasks x 3 yields", "float clocks"]
 ASSUMPTIONS = ["select.select stub: returns a subset of the requested fds; if it returns nothing the full timeout has elapsed; otherwise some delay <= timeout",
                "time.time() is the harness's integer clock; the pinger is an in-memory flag"]
 
@@ -224,6 +224,60 @@ def h_timer(ctx, recurring, cancel_after, start='now', absolute=False):
   ctx.witness('done')
 
 
+def h_epoll(ctx, ncalls):
+  """EpollSelect.select (the epoll-backed select hub) against the select() contract over a sequence of calls: a model epoll object (register /
+  modify / unregister with their error behaviour, poll) stands for the kernel; per call the membership of a socket-like object in the read and
+  write lists is solver-chosen (a second, raw fd stays in the read list like the hub's pinger) and either everything or nothing is ready."""
+  import select as real_select
+  E = ctx.pox('pox.lib.epoll_select')
+  IN, OUT = real_select.EPOLLIN, real_select.EPOLLOUT
+  class FakeEpoll:
+    def __init__(self): self.reg = {}; self.ready = {}
+    def register(self, fd, mask):
+      if fd in self.reg: raise FileExistsError(17, 'File exists')
+      self.reg[fd] = mask
+    def modify(self, fd, mask):
+      if fd not in self.reg: raise FileNotFoundError(2, 'No such file or directory')
+      self.reg[fd] = mask
+    def unregister(self, fd):
+      if fd not in self.reg: raise FileNotFoundError(2, 'No such file or directory')
+      del self.reg[fd]
+    def poll(self, timeout=None):
+      out = []
+      for fd, mask in self.reg.items():
+        ev = self.ready.get(fd, 0) & mask
+        if ev: out.append((fd, ev))
+      return out
+    def close(self): pass
+  class SelectModule:
+    def __getattr__(self, n): return getattr(real_select, n)
+    def epoll(self): return fake
+  fake = FakeEpoll()
+  saved = E.select
+  E.select = SelectModule()
+  try:
+    es = E.EpollSelect()
+    class Obj:
+      def fileno(self): return 7
+      def __repr__(self): return '<obj 7>'
+    o = Obj(); raw = 9
+    for i in range(ncalls):
+      inr = bool(ctx.bool('obj_in_read_list_%d' % i)); inw = bool(ctx.bool('obj_in_write_list_%d' % i))
+      allready = bool(ctx.bool('everything_ready_%d' % i))
+      rl = ([o] if inr else []) + [raw]; wl = [o] if inw else []
+      fake.ready = {7: (IN | OUT), 9: IN} if allready else {}
+      r, w, x = es.select(rl, wl, [], 0)
+      ctx.check('call %d: readable result == ready members of the read list' % i, sorted(map(repr, r)) == sorted(map(repr, rl if allready else [])))
+      ctx.check('call %d: writable result == ready members of the write list' % i, list(w) == (wl if allready else []))
+      ctx.check('call %d: no exceptional conditions reported' % i, list(x) == [])
+      want = {9: IN | real_select.EPOLLPRI}
+      if inr or inw: want[7] = ((IN | real_select.EPOLLPRI) if inr else 0) | (OUT if inw else 0)
+      ctx.check('call %d: kernel interest set == what the lists ask for' % i, fake.reg == want)
+  finally:
+    E.select = saved
+  ctx.witness('done')
+
+
 class SubErr(Exception):
   def __init__(self, tag): Exception.__init__(self, tag); self.tag = tag
 
@@ -326,6 +380,8 @@ def obligations(tier):
     Obligation('O1_tasks', h_tasks, [dict(prog=p) for p in progs], witnesses=('done',), max_decisions=20000, mode='int',
                desc='execution trace of task programs under symbolic time / readiness'),
     Obligation('O2_timers', h_timer, timers, witnesses=('done',), max_decisions=20000, mode='int', desc='one-shot / recurring / cancelled / self-stopping timers'),
+    Obligation('O4_epoll', h_epoll, [dict(ncalls=3)] + ([dict(ncalls=4)] if thorough else []), witnesses=('done',), max_decisions=20000, mode='int',
+               desc='EpollSelect.select over a model epoll object: result lists and kernel interest set follow the read/write lists across calls'),
     Obligation('O3_subtasks', h_subtasks, sub, witnesses=('done', 'raised'), max_decisions=20000, mode='int',
                desc='task_function / Again: nested sub-task calls behave like calls - result or exception reaches exactly the caller'),
   ]
